@@ -840,9 +840,11 @@ package scipipe
 //@   loop 0 invariant vis: forall k string :: $visited[k] ==> k in procs
 //@   loop 0 invariant grows: forall p ref :: old(sawReady)[p] ==> sawReady[p]
 
+//@ define keyedByName(m map[string]WorkflowProcess) bool = forall k string :: k in m ==> m[k] != nil && procName(m[k]) == k
 //@ func mergeWFMaps(a, b) (res)
 //@   props C16
 //@   modifies a[*]
+//@   ensures members: old(keyedByName(a)) && keyedByName(b) && a != b ==> keyedByName(a) && (forall q ref :: q != nil ==> (listed(a, q) <==> (old(listed(a, q)) || listed(b, q))))
 //@   ensures same-map: res == a
 //@   ensures union: forall k string :: k in a <==> (old(k in a) || k in b)
 //@   ensures values: forall k string :: k in a ==> (k in b && a[k] == b[k]) || (!(k in b) && a[k] == old(a[k]))
@@ -1000,7 +1002,6 @@ package scipipe
 //@   modifies map[string]*OutParamPort, outParamPort.RemotePorts[*], InParamPort.ready, outParamPort.ready
 //@   ensures connected: outParamPort.ready && len(outParamPort.RemotePorts) > 0
 
-//@ define keyedByName(m map[string]WorkflowProcess) bool = forall k string :: k in m ==> m[k] != nil && procName(m[k]) == k
 //@ func (*Workflow).reconnectDeadEndConnections(wf, procs)
 //@   props C16
 //@   requires keyed: keyedByName(procs)
@@ -1040,11 +1041,11 @@ package scipipe
 //@   atcall (*Workflow).runProcs targets-included: forall j int :: 0 <= j && j < len(finalProcs) ==> listed($arg1, finalProcs[j])
 //@   atcall (*Workflow).runProcs upstream-included: forall j int, q ref :: 0 <= j && j < len(finalProcs) && directUp(q, finalProcs[j]) ==> listed($arg1, q)
 //@   atcall (*Workflow).runProcs closed-under-upstream: forall k string, q ref :: k in $arg1 && directUp(q, $arg1[k]) ==> listed($arg1, q)
-//@   atcall (*Workflow).runProcs nothing-else: forall k string :: k in $arg1 ==> (exists j int :: 0 <= j && j < len(finalProcs) && $arg1[k] == finalProcs[j]) || (exists k2 string :: k2 in $arg1 && directUp($arg1[k], $arg1[k2]))
+//@   atcall (*Workflow).runProcs nothing-else: forall q ref :: listed($arg1, q) ==> (exists j int :: 0 <= j && j < len(finalProcs) && q == finalProcs[j]) || (exists q2 ref :: listed($arg1, q2) && directUp(q, q2))
 //@   loop 0 invariant range: 0 <= $i && $i <= len(finalProcs)
 //@   loop 0 invariant fresh: fresh(procsToRun) && procsToRun != nil
 //@   loop 0 invariant keyed: forall k string :: k in procsToRun ==> procsToRun[k] != nil && procName(procsToRun[k]) == k
 //@   loop 0 invariant targets: forall j int :: 0 <= j && j < $i ==> listed(procsToRun, finalProcs[j])
 //@   loop 0 invariant upstream: forall j int, q ref :: 0 <= j && j < $i && directUp(q, finalProcs[j]) ==> listed(procsToRun, q)
 //@   loop 0 invariant closed: forall k string, q ref :: k in procsToRun && directUp(q, procsToRun[k]) ==> listed(procsToRun, q)
-//@   loop 0 invariant nothing-else: forall k string :: k in procsToRun ==> (exists j int :: 0 <= j && j < $i && procsToRun[k] == finalProcs[j]) || (exists k2 string :: k2 in procsToRun && directUp(procsToRun[k], procsToRun[k2]))
+//@   loop 0 invariant nothing-else: forall q ref :: listed(procsToRun, q) ==> (exists j int :: 0 <= j && j < $i && q == finalProcs[j]) || (exists q2 ref :: listed(procsToRun, q2) && directUp(q, q2))
